@@ -152,6 +152,7 @@ func failKind(o driver.Outcome) string {
 // ---- C02: three encoders agree, Size() exact, MarshalBebopTo stays inside Size() ----------------
 
 func (w *W) c02(groups [][]*driver.Bound) {
+	refcodec.AmbiguousDates = true
 	for _, g := range groups {
 		if isEvo(g) {
 			continue
